@@ -319,6 +319,15 @@ Section Prims.
                end
       | _ => stuck f s
       end
+    (* ---- a local vector, indexing, cloning and pushing elements (callee methods of clone()) ---- *)
+    else if is "MiniVec::new" then
+      match args with [] => lift_k (new_obj cfg) VObj s k | _ => stuck f s end
+    else if is "index" then
+      match args with [VObj v; VInt i] => lift_k (index_at cfg v i) VInt s k | _ => stuck f s end
+    else if is ".clone" then
+      match args with [VInt e] => lift_k (clone_elem cfg e) VInt s k | _ => stuck f s end
+    else if is ".push" then
+      match args with [VObj v; VInt e] => lift_k (push cfg ncap v e) vunit s k | _ => stuck f s end
     (* ---- the DrainFilter object: `self` of DrainFilter::next is VCtor "FIter" [VObj i] ---- *)
     else if is "field:old_len" || is "field:new_len" || (is "field:pos" && match args with [it] => match ctor_is "FIter" it with Some _ => true | None => false end | _ => false end) then
       match args with
